@@ -14,6 +14,7 @@ import (
 	"path/filepath"
 	"runtime"
 	"strings"
+	"sync"
 )
 
 // Pinned digests of the word list files (english = the published digest of
@@ -28,7 +29,10 @@ type List struct {
 	Index map[string]int
 }
 
-var lists = map[string]*List{}
+var (
+	lists   = map[string]*List{}
+	listsMu sync.Mutex // Load is called from several goroutines at once
+)
 
 func dataDir() string {
 	_, file, _, _ := runtime.Caller(0)
@@ -37,6 +41,8 @@ func dataDir() string {
 
 // Load returns the pinned list for lang ("english" or "japanese").
 func Load(lang string) (*List, error) {
+	listsMu.Lock()
+	defer listsMu.Unlock()
 	if l, ok := lists[lang]; ok {
 		return l, nil
 	}
